@@ -533,6 +533,22 @@ def fact_partition_relay_keeps_inherited(repo):
         return None
 
 
+def fact_partition_cross_store_copied(repo):
+    """PicklePartitionStrategy: an inherited entry whose object the target data source does not hold (exists_versioned)
+    is loaded from the parent's data source and stored in the target one, before / instead of being kept by reference"""
+    try:
+        tree = _parse(repo, "storage_base.py")
+        cls = _find_class(tree, "PicklePartitionStrategy")
+        for fn in cls.body:
+            if isinstance(fn, ast.FunctionDef):
+                names = _calls(fn)
+                if "exists_versioned" in names and "load" in names and "store" in names:
+                    return True
+        return False
+    except Exception:
+        return None
+
+
 def fact_scope_follows_memento_fn(repo):
     """below a memento function the package scope is (re)bound to that function's own package, as a fresh set (no shared mutation)"""
     try:
@@ -712,6 +728,11 @@ def _f26(repo):
 @fact("anonymous_helpers_distinct", "option bool")
 def _f27(repo):
     return _opt_bool(fact_anonymous_helpers_distinct(repo))
+
+
+@fact("partition_cross_store_copied", "option bool")
+def _f28(repo):
+    return _opt_bool(fact_partition_cross_store_copied(repo))
 
 
 def generate(repo):
